@@ -232,6 +232,7 @@ class FunctionVerifier:
         body = strip_docstring(fn.body)
         loc = dict(env)
         loc.update(base_env)
+        eng.entry_state = pre.with_loc(loc)
         outs = list(eng.ex(body, pre.with_loc(loc)))
         self.paths += len(outs)
         covered = set()
@@ -324,6 +325,15 @@ class FunctionVerifier:
             r.status = "proved" if i in covered else "refuted"
             r.detail = text
             self.results.append(r)
+        if eng.late_axioms:
+            # facts by which models define their fresh symbols must not constrain anything else: together with the
+            # precondition they have to be satisfiable, or every later verdict would be vacuous
+            r = Result(f"{c.qual}/vacuity:model-facts{('@' + case) if case else ''}", "vacuity")
+            if eng.feasible(pre.pc):
+                r.status, r.backend = "proved", "z3"
+            else:
+                r.status, r.detail = "refuted", "facts asserted by the collaborator models are contradictory"
+            self.results.append(r)
         self.info.setdefault("solver_calls", 0)
         self.info["solver_calls"] += eng.n_solver
         self.info.setdefault("assumptions", set()).update(eng.used_assumptions)
@@ -414,6 +424,8 @@ class FunctionVerifier:
     def obligation(self, eng, mk, shapes, name, tag, pc, goal, kind, witnesses=()):
         r = Result(name, kind)
         r.path = tag
+        if eng.late_axioms:
+            pc = tuple(pc) + tuple(eng.late_axioms)
         if self.defer:
             self.results.append(r)
             self.deferred.append((r, eng, mk, shapes, name, pc, goal, witnesses))
